@@ -272,6 +272,107 @@ pub fn build_mutant(c: &MutCase) -> (GenStream, Vec<mutant::Mutant>) {
     (gs, applied)
 }
 
+/// A generated (valid or mutated) stream with independently generated metadata blocks of every
+/// type spliced in behind STREAMINFO, optionally with hostile edits: what a reader sees before it
+/// reaches the first frame is part of "every byte string" too.
+#[derive(Serialize, Deserialize, Clone, Debug, Hash, PartialEq, Eq)]
+pub struct MetaStreamCase {
+    pub stream: MutCase,
+    pub blocks: Vec<crate::refmeta::RBlock>,
+    /// (position selector, byte) overwrites inside the spliced metadata
+    pub pokes: Vec<(u16, u8)>,
+}
+
+pub fn build_meta_stream(c: &MetaStreamCase) -> Vec<u8> {
+    let (gs, _) = build_mutant(&c.stream);
+    let b = &gs.bytes;
+    let ff = gs.first_frame.min(b.len());
+    if ff < 42 {
+        return b.clone();
+    }
+    // existing metadata with every last-block flag cleared
+    let mut meta = b[..ff].to_vec();
+    let mut pos = 4usize;
+    while pos + 4 <= ff {
+        meta[pos] &= 0x7F;
+        let len = ((meta[pos + 1] as usize) << 16) | ((meta[pos + 2] as usize) << 8) | meta[pos + 3] as usize;
+        pos += 4 + len;
+    }
+    let splice_from = meta.len();
+    let extra: Vec<&crate::refmeta::RBlock> = c.blocks.iter().filter(|x| x.type_code() != 0).collect();
+    if extra.is_empty() {
+        // nothing to add: restore the flag on the last original block
+        return b.clone();
+    }
+    for (i, x) in extra.iter().enumerate() {
+        let p = x.payload();
+        let p = &p[..p.len().min((1 << 24) - 1)];
+        meta.extend_from_slice(&framegen::block_header(i + 1 == extra.len(), x.type_code(), p.len()));
+        meta.extend_from_slice(p);
+    }
+    let span = meta.len() - splice_from;
+    for (sel, v) in &c.pokes {
+        let at = splice_from + ((*sel as usize * span) >> 16);
+        if at < meta.len() {
+            meta[at] = *v;
+        }
+    }
+    meta.extend_from_slice(&b[ff..]);
+    meta
+}
+
+pub struct MetaStream;
+
+impl Engine for MetaStream {
+    type Case = MetaStreamCase;
+    fn name(&self) -> &'static str {
+        "metadata-in-front-of-frames"
+    }
+    fn check(&self, c: &MetaStreamCase) -> Outcome {
+        let mut out = Outcome::new();
+        out.evals = 0;
+        let bytes = build_meta_stream(c);
+        for x in &c.blocks {
+            out.label(match x.type_code() {
+                1 => "meta:padding",
+                2 => "meta:application",
+                3 => "meta:seektable",
+                4 => "meta:vorbis-comment",
+                5 => "meta:cuesheet",
+                6 => "meta:picture",
+                0 => "meta:streaminfo-dropped",
+                _ => "meta:unknown-type",
+            });
+        }
+        if !c.pokes.is_empty() {
+            out.label("metadata-poked");
+        }
+        if bytes.len() <= 1 << 20 {
+            exercise_file(&bytes, &mut out);
+        }
+        out
+    }
+    fn sample(&self, c: &MetaStreamCase) -> serde_json::Value {
+        serde_json::json!({"stream": c.stream, "blocks": c.blocks.iter().map(|b| b.type_code()).collect::<Vec<_>>(), "pokes": c.pokes.len()})
+    }
+}
+
+pub fn meta_stream_strategy() -> BoxedStrategy<MetaStreamCase> {
+    (
+        mut_case_strategy(),
+        crate::metagen::rlist_strategy(),
+        prop_oneof![2 => Just(vec![]), 1 => proptest::collection::vec((any::<u16>(), any::<u8>()), 1..4)],
+        any::<bool>(),
+    )
+        .prop_map(|(mut stream, blocks, pokes, clean)| {
+            if clean {
+                stream.muts.clear();
+            }
+            MetaStreamCase { stream, blocks, pokes }
+        })
+        .boxed()
+}
+
 pub fn mut_case_strategy() -> BoxedStrategy<MutCase> {
     (
         any::<u64>(),
@@ -550,6 +651,15 @@ pub fn run(ctx: &Ctx) {
             .prop_map(|(seed, max_bs, muts, repair)| ByteMutCase { seed, max_bs, muts, repair })
             .boxed()
     });
+    // (b') metadata of every type, legal and hostile, spliced in front of the frames
+    let n = match (t, checked) {
+        (Tier::Quick, false) => 40_000,
+        (Tier::Quick, true) => 25_000,
+        (Tier::Thorough, false) => 1_500_000,
+        (Tier::Thorough, true) => 800_000,
+    };
+    ctx.regress(&MetaStream);
+    ctx.search(&MetaStream, n, meta_stream_strategy);
     // (c) exhaustive flips and truncations of small files
     let nfiles = match (t, checked) {
         (Tier::Quick, false) => 40,
@@ -604,6 +714,7 @@ pub fn engines() -> Vec<Box<dyn crate::engine::DynEngine>> {
     vec![
         Box::new(GrammarMutants),
         Box::new(ByteMutants),
+        Box::new(MetaStream),
         Box::new(RawBytes { name: "raw-bytes" }),
         Box::new(RawBytes { name: "flip-truncate-sweep" }),
     ]
